@@ -127,6 +127,42 @@ def gen_cases(tier, rng):
     return cases
 
 
+def eof_checksums(v, tier, rng):
+    """EOF clause: every EOF the source emits (nominal, after a cancel, re-sent on ACK-timer expiry) carries the checksum
+    of exactly the bytes it has sent (its file size field)."""
+    from harness import codec, hcommon, srcprops, timers
+    from harness.transfer import Cfg
+    n = 0
+    cases = []
+    for ck in (0, 2, 3, 15):
+        for size in (0, 1, 5, 9):
+            for seg in (1, 4):
+                cases.append(("nominal", Cfg(mode=rng.choice([0, 1]), cktype=ck, max_seg=seg), size))
+    for ck in (0, 2, 3):
+        for k in (1, 2, 3, 4):
+            cases.append(("cancel", Cfg(mode=0, cktype=ck, max_seg=2, ack_limit=3), k))
+    for kind, cfg, x in cases:
+        if kind == "nominal":
+            data = bytes(rng.getrandbits(8) for _ in range(x))
+            side = srcprops.nominal_source_case(cfg, data)
+        else:
+            c = timers.CancelSilentCase(cfg, 9, "src", x)
+            c.run()
+            side = c.sides[0]
+            data = bytes((5 * i + 1) % 256 for i in range(9))
+        tr = hcommon.Trace(*side)
+        for i, g, _ in tr.emitted():
+            if g["kind"] == codec.K_EOF:
+                n += 1
+                want = expected(cfg.cktype, data[:g["fsize"]])
+                if g["cksum"] != want:
+                    v.violation(f"oracle: EOF PDU (condition {g['cond']}, size {g['fsize']}) carries checksum {g['cksum'].hex()}, the "
+                                f"checksum of the {g['fsize']} bytes sent is {want.hex()}",
+                                {"kind": "source", "ops": side[1][:i + 1], "clause": "EOF checksum"})
+                    return n
+    return n
+
+
 def in_quantifier(o):
     kind, ty, ex, size, seg = o[:5]
     data = o[5:] if kind == 0 else o[9:]
@@ -182,12 +218,7 @@ def run(tier, seed):
     finally:
         impl.close()
     # EOF checksum clause: traces of the source handler (shared transfer harness)
-    eof_checked = 0
-    try:
-        from harness import transfer
-        eof_checked = transfer.c09_eof_checksums(v, tier, rng)
-    except ImportError:
-        v.notes.append("EOF-checksum clause: transfer harness not available")
+    eof_checked = eof_checksums(v, tier, rng)
     sample = [c[:3] for c in cases[5:8]]
     try:
         if common.coq_eval("run_checksum", sample) != common.run_model("checksum", sample):
